@@ -347,12 +347,34 @@ def _(c):
 
 
 def _grid_register(tier, rng):
-    """all sequences of length <= 3 over {create station S_k, create orbit-attached frame O_k (QSW), create orbit frame (inertial axes)},
-    each interleaved with the full matrix of conversions among the 10 built-in frames at 2 dates"""
-    kinds = ["station", "orbit_qsw", "orbit_inertial", "orbit_given_in_the_previous_new_frame"]
+    """all sequences of length <= 3 over {create station S_k, create orbit-attached frame O_k (QSW), create orbit frame (inertial axes), orbit frame of an orbit given in the
+    frame created just before, station on a user-defined body-fixed frame five links away from ITRF}, each interleaved with the full matrix of conversions among the 10
+    built-in frames and that user frame at 2 dates"""
+    kinds = ["station", "orbit_qsw", "orbit_inertial", "orbit_given_in_the_previous_new_frame", "station_on_a_user_body_fixed_frame"]
     for L in (1, 2, 3):
-        for seq in itertools.product(range(4), repeat=L):
+        for seq in itertools.product(range(5), repeat=L):
             yield {"len": L, **{f"k{i}": seq[i] for i in range(L)}}
+
+
+_USER = []
+
+
+def _user_frame():
+    """a user-defined body-fixed frame: its own orientation (slow spin about z, linked to EME2000) on its own centre (offset from the Earth's)"""
+    if not _USER:
+        from beyond.frames import frames, orient, center
+        from beyond.utils.matrix import rot3
+        spin = 2.6617e-6
+
+        def C20User_to_EME2000(self, date):
+            return rot3(-spin * (date.mjd - 55000.0) * 86400.0), np.array([0.0, 0.0, spin])
+        orient.Orientation.C20User_to_EME2000 = C20User_to_EME2000
+        o = orient.Orientation("C20User")
+        o + orient.EME2000
+        ce = center.Center("C20UserC", body=center.Earth.body)
+        ce.add_link(center.Earth, orient.EME2000, np.array([3.844e8, 1.0e7, -2.0e7, 0.0, 0.0, 0.0]))
+        _USER.append(frames.Frame("C20User", o, ce))
+    return _USER[0]
 
 
 @contract("C20", "register", funcs=["beyond.frames.stations:create_station", "beyond.frames.frames:orbit2frame", "beyond.frames.center:Center.add_link",
@@ -367,7 +389,7 @@ def _(c):
     from beyond.frames import orient
     from beyond.orbits import StateVector
     from beyond.dates import Date
-    names = ["EME2000", "MOD", "TOD", "TEME", "PEF", "ITRF", "TIRF", "CIRF", "GCRF", "G50"]
+    names = ["EME2000", "MOD", "TOD", "TEME", "PEF", "ITRF", "TIRF", "CIRF", "GCRF", "G50", _user_frame().name]
     dates = [Date(2010, 3, 4, 5, 6, 7), Date(2016, 11, 30, 23, 59, 0)]
     x = [7e6 * 0.6, 7e6 * 0.5, 7e6 * 0.62, -4.5e3, 5.5e3, 1.2e3]
 
@@ -390,6 +412,9 @@ def _(c):
         if kind == 0:
             fr = create_station(nm, (10.0 + 7 * i, -20.0 + 11 * i, 50.0))
             ok_name = ok_name and hasattr(orient.Orientation, f"{nm}_to_ITRF")
+        elif kind == 4:
+            fr = create_station(nm, (0.67 + i, 23.47, 0.0), parent_frame=_user_frame())
+            ok_name = ok_name and hasattr(orient.Orientation, f"{nm}_to_{_user_frame().orientation.name}")
         else:
             xi = [v * (1 + 0.01 * i) for v in x]
             ref = StateVector(xi, dates[0], "cartesian", "EME2000")
@@ -463,3 +488,79 @@ def _(c):
     else:
         c.ensure("local_axes.orientation", len(lofs) == 1 and frames_[0].a[1] is lofs[0] and lofs[0].a[0] == "N" and lofs[0].a[1] is ref
                  and str(lofs[0].a[2]).upper() == o.upper() and lofs[0].a[3] is parent)
+
+
+STN = "beyond.frames.stations"
+
+
+@contract("C20", "create_station", funcs=[f"{STN}:create_station"], level="proof",
+          assumptions=["Center, TopocentricOrientation and TopocentricFrame constructors abstracted as recorders (C11.geodetic / C11.topo.axes / C20.register cover them)",
+                       "_geodetic_to_cartesian by its contract (C11.geodetic)"])
+def _(c):
+    """proved: create_station(name, latlonalt, parent_frame) creates one centre `name` linked exactly once, to the parent frame's centre, with the parent frame's
+    orientation and the geodetic coordinates as offset; one topocentric orientation whose declared parent is the parent frame's orientation, linked (+) to that orientation
+    and to nothing else, its provider published as <name>_to_<parent orientation>; an equatorial station re-uses EME2000 and creates no orientation; the angles are handed
+    over in radians"""
+    if not c.symbolic:
+        return
+    calls = []
+
+    class Rec:
+        def __init__(self, kind, *a, **k):
+            self.kind, self.a, self.k = kind, a, k
+            calls.append(self)
+
+        def add_link(self, *a):
+            calls.append(("add_link", self, a))
+
+        def __add__(self, other):
+            calls.append(("link", self, other))
+            return self
+
+        def _to_parent(self, date):
+            return None
+
+    par_orient = types.SimpleNamespace(name="PARENT_ORIENT")
+    par_center = types.SimpleNamespace(body="BODY")
+    parent = types.SimpleNamespace(center=par_center, orientation=par_orient)
+    published = {}
+    eme = object()
+    orient_ns = types.SimpleNamespace(TopocentricOrientation=lambda *a, **k: Rec("Topo", *a, **k), EME2000=eme,
+                                      Orientation=type("OrientationStub", (), {"__setattr__": None}))
+
+    class _Pub(type):
+        def __setattr__(cls, k, v):
+            published[k] = v
+    orient_ns.Orientation = _Pub("Orientation", (), {})
+    lat, lon, alt = c.real("lat"), c.real("lon"), c.real("alt")
+    coords = object()
+    geo = []
+    w = c.world(names={STN: {"center": types.SimpleNamespace(Center=lambda *a, **k: Rec("Center", *a, **k)), "orient": orient_ns,
+                             "TopocentricFrame": types.SimpleNamespace(_geodetic_to_cartesian=lambda *a: geo.append(a) or coords,
+                                                                       __call__=None)}})
+    made = []
+
+    class TF:
+        _geodetic_to_cartesian = staticmethod(lambda *a: geo.append(a) or coords)
+
+        def __init__(self, *a, **k):
+            self.a, self.k = a, k
+            made.append(self)
+    w.names[STN]["TopocentricFrame"] = TF
+    equatorial = bool(c.boolean("equatorial"))
+    res = w.fn(f"{STN}:create_station")("S", (lat, lon, alt), parent_frame=parent, equatorial=equatorial)
+    centers = [x for x in calls if isinstance(x, Rec) and x.kind == "Center"]
+    topos = [x for x in calls if isinstance(x, Rec) and x.kind == "Topo"]
+    links = [x for x in calls if isinstance(x, tuple) and x[0] == "add_link"]
+    olinks = [x for x in calls if isinstance(x, tuple) and x[0] == "link"]
+    c.ensure("angles_in_radians", len(geo) == 1 and c.all_eq(np.array(list(geo[0]), dtype=object), np.array([sym.radians(lat), sym.radians(lon), alt], dtype=object)))
+    c.ensure("one_centre", len(centers) == 1 and centers[0].a == ("S",) and centers[0].k == {"body": "BODY"})
+    c.ensure("centre_linked_once_to_the_parent_centre", len(links) == 1 and links[0][1] is centers[0] and links[0][2][0] is par_center and links[0][2][1] is par_orient
+             and links[0][2][2] is coords)
+    c.ensure("frame_returned", len(made) == 1 and res is made[0] and made[0].a[0] == "S" and made[0].a[2] is centers[0])
+    if equatorial:
+        c.ensure("equatorial.no_orientation_created", topos == [] and olinks == [] and published == {} and made[0].a[1] is eme)
+    else:
+        c.ensure("topocentric.declared_parent_is_the_parent_orientation", len(topos) == 1 and topos[0].a[0] == "S" and topos[0].k.get("parent", topos[0].a[2] if len(topos[0].a) > 2 else None) is par_orient)
+        c.ensure("topocentric.linked_to_the_parent_orientation_only", len(olinks) == 1 and olinks[0][1] is topos[0] and olinks[0][2] is par_orient)
+        c.ensure("topocentric.provider_published", list(published) == ["S_to_PARENT_ORIENT"] and made[0].a[1] is topos[0])
